@@ -321,3 +321,25 @@ PROPS["C19"] = dict(
     exhaustive_axes="",
     assumptions=["ThreadSanitizer decides the executions it observed; hand-written assembly is not instrumented (it works on thread-private data only)", "clang 14 -O1 -fsanitize=thread build of /repo's working tree"],
 )
+
+PROPS["C11"] = dict(
+    name="c11", sources=["props/c11.cpp"], engine="metamorphic trace-equality over generated secret pairs + valgrind definedness monitor", ldflags=["-no-pie"], cflags=["-fno-pie"],
+    builds=[("cov", "native"), ("cov", "noasm"), ("cov", "portable")],
+    builds_thorough=[("cov", "native"), ("cov", "noasm"), ("cov", "portable"), ("cov", "noti")],
+    level="exploration",
+    valgrind=dict(name="c11vg", sources=["props/c11vg.cpp"], seeds_quick=2, seeds_thorough=8),
+    rule=("Metamorphic oracle over generated secret pairs: for fixed public inputs (operation, lengths, nonces, points, buffer addresses) the execution trace - every basic-block edge and every load/store address, "
+          "recorded through -fsanitize-coverage=trace-pc-guard,trace-loads,trace-stores callbacks and folded into a rolling hash - must be identical for two secrets. 64 operations: crypto_verify_16/32/64, sodium_memcmp/"
+          "compare/is_zero (both operands secret), X25519 and base, Ed25519 seed_keypair / sign / sign_detached / ph final_create / sk_to_curve25519, Edwards and Ristretto scalar multiplication (clamp, noclamp, base), "
+          "scalar add/sub/mul/negate/complement/invert/reduce, ChaCha20 / IETF / XChaCha20 / Salsa20 / XSalsa20 / Salsa20-12 stream and xor, HChaCha20 / HSalsa20, Poly1305 one-shot and streaming, HMAC-SHA-256/512/512-256, "
+          "SHA-256/512, keyed BLAKE2b one-shot and streaming, SipHash, BLAKE2b KDF, HKDF-SHA-256/512, ChaCha20-Poly1305 (3 variants) and secretbox (2 variants) encryption, AES-256-GCM and AEGIS-128L/256 encryption on the "
+          "AES-NI backend, bin2hex, bin2base64 (4 variants), sodium_unpad (secret marker position) and sodium_pad (secret unpadded length). Public lengths across block boundaries "
+          "{0,1,15-17,31-33,63-65,100,127-129,255-257,300,511-513,600}; structured secret pairs: random/random, all-00/all-ff, first byte, last byte, sampled single bits, random/zero, same key other message, other key "
+          "same message; for comparisons equal vs first-byte / last-byte / random / single-bit difference; scalars {1, 2, L-1, 2^252, sparse, dense, random} (identity results excluded as the property allows); all "
+          "marker positions. CPU masks {all, -avx2, -ssse3, none} x builds {native, noasm, portable} make each C backend visible. On divergence both traces are recorded in full and the first differing event is symbolised. "
+          "Second monitor for assembly and gcc code generation: 924 operation executions per run on the gcc -O2 build under valgrind memcheck with the secret bytes marked undefined (every conditional jump or address "
+          "depending on them is reported; Edwards/Ristretto scalar multiplication, which branches on the public identity-result check, and sodium_pad are excluded there). Non-trivial = pair with S1 != S2 (the histogram "
+          "counts pairs with fewer than 20 trace events); distinct = (build, operation, public length, mask, pair class)."),
+    assumptions=["decides the binaries produced by clang 14 -O2 (trace monitor) and gcc 12 -O2 (valgrind monitor) from /repo's working tree; hand-written assembly is only visible to the valgrind monitor",
+                 "instruction-level timing (variable-latency instructions, micro-architectural effects) is outside the property"],
+)
